@@ -192,6 +192,21 @@ def run(ctx):
                     ck = srt[:len(kw)]
                     if len(kw) and np.allclose(np.sort(kw)[::-1], np.array(ck) / sum(ck), atol=1e-9):
                         tr.append(dict(ev='firstbond', ws=ws, kept=ck, tn=tn, td=td))
+                        # a history: the compressed state is compressed again (same object), with another tolerance;
+                        # the rule now applies to the spectrum the first call left behind
+                        cand2 = [(int(rng.integers(1, 12)), 24), (int(rng.integers(1, 24)), 48), (0, 1)]
+                        tn2, td2 = cand2[int(rng.integers(len(cand2)))]
+                        if rng.random() < 0.6 and not boundary(ck, tn2, td2):
+                            mode2 = mode if rng.random() < 0.7 else ('right' if mode == 'left' else 'left')
+                            tr += canon.record_canon(ptn, psi, 'mps', 'compress', mode2, tn2, td2)
+                            if tr[-1].get('ev') == 'end':
+                                sv2 = np.linalg.svd(psi.as_vector().reshape((d, -1)), compute_uv=False)
+                                kw2 = sv2[sv2 > 1e-9]**2
+                                ck2 = ck[:len(kw2)]
+                                if len(kw2) and np.allclose(np.sort(kw2)[::-1], np.array(ck2) / sum(ck2), atol=1e-9):
+                                    tr.append(dict(ev='firstbond', ws=ck, kept=ck2, tn=tn2, td=td2))
+                                else:
+                                    tr.append(dict(ev='raise', exc='second compression: Schmidt spectrum is not a prefix of the spectrum left by the first'))
                     else:
                         tr.append(dict(ev='raise', exc='Schmidt spectrum of the compressed state is not a prefix of the designed spectrum'))
         except BaseException as ex:  # noqa
@@ -207,7 +222,7 @@ def run(ctx):
     ctx.notes['firstbond_events'] = sum(1 for tr in traces for r in tr if r['ev'] == 'firstbond')
     for tr in traces[2:len(traces):max(1, len(traces) // 5)]:
         ctx.sample(tr[:4])
-    bad = validate_chunks(ctx, 'TraceCanon', 'tcp', traces, chunk=ctx.pick(100, 1000))
+    bad = validate_chunks(ctx, 'TraceCanon', 'tcp', traces, chunk=ctx.pick(100, 1000), relax=canon.relax)
     for idx, why in sorted(bad.items())[:40]:
         c = cases[idx]
         clause = why[0][2] if why and len(why[0]) > 2 else 'rejected'
